@@ -63,6 +63,11 @@ func runC05(r *oblig.Report) {
 	e5path.ErrorProvenance(c.P, r, "R5.5", "graph", []string{"ErrModelCycle", "ErrTupleCycle", "ErrInvalidModel"}, fs)
 	r.Rule("R5.6", "instance-table", "no callee error is dropped on the way to Build's result", 9)
 	e5path.Propagation(c.P, r, "R5.6", fs, dropExceptions)
+	// the verdict is a function of the model alone: no state survives a Build call in the builder or in the package
+	r.Rule("R2.2", "universe", "no write to package-level state", 0)
+	r.Rule("R2.1r", "instance-table", "builder methods never store into their receiver", 1)
+	e2own.Globals(c.P, r, "R2.2", fs)
+	e2own.ReceiverState(c.P, r, "R2.1r", "graph", "WeightedAuthorizationModelGraphBuilder", fs)
 }
 
 func runC06(r *oblig.Report) {
